@@ -14,6 +14,21 @@ else:
 REPLAY = os.path.join(EVID, "replay")
 
 
+def _strata(mod):
+    """names the cross-cutting strata the worker applies to this check (each has its own counter among monitor_counters)"""
+    txt = []
+    for attr, what in (("SCALE", "large cases every {p}-th case".format(p=getattr(mod, "SCALE_EVERY", 41))),
+                       ("DEGEN", "degenerate shapes (empty, rests only, signatures only, single notes, one-tick chords) every 37th case"),
+                       ("DRUMS", "channels moved to 9 / 15 / 10 / 8 every 11th case"),
+                       ("REJECTED", "a rejected (raising) public call first, every {p}-th case".format(p=getattr(mod, "REJECTED_EVERY", 13))),
+                       ("EXTREMES", "extreme legal values every 6th case"), ("RESTATE", "restated signatures every 5th case"),
+                       ("SHUFFLE", "shuffled insertion order"), ("SPLIT_WAITS", "rests written as adjacent waits every 5th case"),
+                       ("TRACK_CHANNELS", "tracks on other channels every 4th case")):
+        if getattr(mod, attr, None):
+            txt.append(what)
+    return (" Worker strata: " + "; ".join(txt) + ".") if txt else ""
+
+
 def _trim(obj, n=3000):
     s = json.dumps(obj, default=str)
     if len(s) <= n:
@@ -125,7 +140,7 @@ def conclude(mod, tier, reports, problems, insitu, wall):
         "coverage": {
             "evaluations": evaluations,
             "distinct_nontrivial": len(hashes),
-            "rule": mod.RULE,
+            "rule": mod.RULE + _strata(mod),
             "samples": [_trim(s) for s in samples] or [{"note": "no non-trivial case was produced"}],
             "exhaustive": bool(getattr(mod, "EXHAUSTIVE", False)),
             "shapes": dict(shapes.most_common(60)),
